@@ -5,7 +5,9 @@
 //! `tlv`:      `msg <new|sorted|slice> <cow|str|ref|h> <tag:kind:payload,...|->`
 //!             (kinds: b/o = borrowed/owned bytes, m = message in slot <payload>, v = MessageView of that slot's encoding,
 //!              f = value whose rough_tlv_len reports <payload>, never encoded)
-//!             `enc <slot> <iov|hcobs>`
+//!             `enc <slot> <iov|hcobs>`  (answers `calls <b|c><len>,...`: every `ZeroCopySink` call `encode` made on the
+//!              sink, in order, method + length, recorded by a pass-through sink wrapper; sink `hcobs` also `wire <hex>`,
+//!              the bytes the real `hcobs::Encoder` sink holds after `finish`)
 use crate::util::*;
 use owning_iovec::{OwningIovec, ZeroCopySink};
 use rough_tlv::{DecodingError, EncodingError, MessageView, MessageWrapper, Tag, ToRoughTLV};
@@ -137,6 +139,16 @@ fn view_obs_inner(d: &[u8], lookups: &[u32], tags_out: &mut Vec<String>) -> (Vec
         })
         .collect();
     obs.push(format!("find {}", if finds.is_empty() { "-".to_string() } else { finds.join(" ") }));
+    // `inner()` / `into_inner()` (track apigaps): the bytes the view was built from, untouched
+    let inner_now: Vec<u8> = msg.inner().to_vec();
+    if inner_now != d {
+        bad("inner() differs from the bytes the view was built from".into());
+    }
+    let into = MessageView::new(Cow::Borrowed(d)).map(|m| m.into_inner().into_owned());
+    obs.push(format!("inner {} {}", to_hex(&inner_now), (into.as_ref().ok() == Some(&inner_now)) as u8));
+    if into.ok().as_deref() != Some(d) {
+        bad("into_inner() differs from the bytes the view was built from".into());
+    }
 
     // ---- the property, on the real accessors
     if !m1 {
@@ -267,6 +279,57 @@ impl Exec for TlvViewExec {
                 so.violations.extend(v);
                 so
             }
+            // `Tag`: every conversion and the ordering (track apigaps)
+            ["tag", a, b] => {
+                let (Ok(x), Ok(y)) = (a.parse::<u32>(), b.parse::<u32>()) else { return StepOut::bad() };
+                let mut so = StepOut::default();
+                let mut bad = |s: &str| {
+                    so.violations.push(format!("C12 Tag: {}", s));
+                    so.violations.push(format!("C11 Tag: {}", s));
+                };
+                let mk = |v: u32| -> (Tag, bool) {
+                    let t: Tag = v.into();
+                    let le = v.to_le_bytes();
+                    let same = t == Tag::new_from_u32(v)
+                        && t == Tag::from(&v)
+                        && t == Tag::new(&le)
+                        && t == Tag::from(le)
+                        && t == Tag::from(&le)
+                        && t.bytes == le
+                        && u32::from(t) == v
+                        && u32::from(&t) == v
+                        && t.value() == v;
+                    (t, same)
+                };
+                let ((ta, oka), (tb, okb)) = (mk(x), mk(y));
+                if !oka || !okb {
+                    bad("the conversions between u32, [u8; 4] and Tag disagree");
+                }
+                let c = ta.cmp(&tb);
+                if c != x.cmp(&y) {
+                    bad("Ord does not compare the little-endian values");
+                }
+                if ta.partial_cmp(&tb) != Some(c) || (ta < tb) != (x < y) || (ta == tb) != (x == y) || tb.cmp(&ta) != c.reverse() {
+                    bad("PartialOrd / Eq / Ord are inconsistent");
+                }
+                let ord = |o: std::cmp::Ordering| match o {
+                    std::cmp::Ordering::Less => "lt",
+                    std::cmp::Ordering::Equal => "eq",
+                    std::cmp::Ordering::Greater => "gt",
+                };
+                so.obs.push(format!(
+                    "tag a={}:{} b={}:{} cmp={} pcmp={} new={}",
+                    ta.value(),
+                    to_hex(&ta.bytes),
+                    tb.value(),
+                    to_hex(&tb.bytes),
+                    ord(c),
+                    ta.partial_cmp(&tb).map(ord).unwrap_or("none"),
+                    Tag::new(&ta.bytes).value()
+                ));
+                so.tags.push(format!("tag_{}", ord(c)));
+                so
+            }
             _ => StepOut::bad(),
         }
     }
@@ -383,11 +446,43 @@ impl Family for TlvViewFamily {
             }
             frontier = next;
         }
-        ops.chunks(256).map(|c| c.to_vec()).collect()
+        let mut cases: Vec<Vec<String>> = ops.chunks(256).map(|c| c.to_vec()).collect();
+        // (c) pair counts beyond one byte (256 +- 1, and 300 in thorough): a well-formed message, the same with its
+        // last offset one past the payload, and with one byte cut off (thresholds that depend on a large N)
+        let mut rng = Rng::new(0xC12_B16);
+        for n in if thorough { vec![255usize, 256, 257, 300] } else { vec![255usize, 256, 257] } {
+            let d = gen_valid(&mut rng, n);
+            let mut over = d.clone();
+            let payload = (d.len() - 8 * n) as u32;
+            put32(&mut over, n - 1, payload + 1);
+            let cut = d[..d.len() - 1].to_vec();
+            // few lookups: the observation is quadratic in N already
+            let lk = |x: &[u8]| format!("view {} {},{},0,4294967295", to_hex(x), rd32(x, n), rd32(x, 2 * n - 1));
+            cases.push(vec![lk(&d), lk(&over), lk(&cut)]);
+        }
+        cases
     }
 
     fn gen_case(&self, rng: &mut Rng, _idx: u64, _thorough: bool) -> Vec<String> {
         let mut ops = Vec::new();
+        if rng.chance(1, 3) {
+            // `Tag` pairs: equal, adjacent, and pairs whose little-endian VALUE order differs from the
+            // order of their byte arrays (low byte vs high byte)
+            let a = match rng.below(5) {
+                0 => *rng.pick(&[0u32, 1, 255, 256, 0x544f4f52, 0x0047_4953, 0x8000_0000, u32::MAX]),
+                1 => (rng.next() as u32) & 0xFFFF,
+                _ => rng.next() as u32,
+            };
+            let b = match rng.below(6) {
+                0 => a,
+                1 => a.wrapping_add(1),
+                2 => a.swap_bytes(),
+                3 => a.rotate_left(8),
+                4 => a ^ (1 << (8 * rng.below(4) as u32)),
+                _ => rng.next() as u32,
+            };
+            ops.push(format!("tag {} {}", a, b));
+        }
         let n = match rng.below(8) {
             0 => 0,
             1 => 1,
@@ -669,6 +764,44 @@ fn stable_by_tag<T: Clone>(items: &[(u32, T)]) -> Vec<(u32, T)> {
     out
 }
 
+/// A pass-through `ZeroCopySink` that records every call made on it (method, length) and the bytes
+/// it was handed, then forwards the call unchanged to the real sink.
+struct RecSink<'a, S: ZeroCopySink<'a>> {
+    inner: S,
+    calls: Vec<(char, usize)>,
+    handed: Vec<u8>,
+    /// every `append_borrow` argument as (address, length): zero-copy means the caller's own buffer
+    borrowed: Vec<(usize, usize)>,
+    _life: std::marker::PhantomData<&'a [u8]>,
+}
+
+impl<'a, S: ZeroCopySink<'a>> RecSink<'a, S> {
+    fn new(inner: S) -> Self {
+        RecSink { inner, calls: Vec::new(), handed: Vec::new(), borrowed: Vec::new(), _life: Default::default() }
+    }
+    fn calls_str(&self) -> String {
+        if self.calls.is_empty() {
+            "-".to_string()
+        } else {
+            self.calls.iter().map(|(k, n)| format!("{}{}", k, n)).collect::<Vec<_>>().join(",")
+        }
+    }
+}
+
+impl<'a, S: ZeroCopySink<'a>> ZeroCopySink<'a> for RecSink<'a, S> {
+    fn append_copy(&mut self, bytes: &[u8]) {
+        self.calls.push(('c', bytes.len()));
+        self.handed.extend_from_slice(bytes);
+        self.inner.append_copy(bytes)
+    }
+    fn append_borrow(&mut self, bytes: &'a [u8]) {
+        self.calls.push(('b', bytes.len()));
+        self.handed.extend_from_slice(bytes);
+        self.borrowed.push((bytes.as_ptr() as usize, bytes.len()));
+        self.inner.append_borrow(bytes)
+    }
+}
+
 pub struct TlvFamily;
 
 struct TlvExec {
@@ -831,12 +964,15 @@ impl TlvExec {
         let Some(reference) = s.reference.clone() else { return StepOut::bad() };
         let mut so = StepOut::default();
         let bad = |so: &mut StepOut, s: String| so.violations.push(format!("C11 {}", s));
-        let out: Vec<u8> = match sink {
+        let mut wire_line: Option<String> = None;
+        let (out, calls, handed, borrowed): (Vec<u8>, String, Vec<u8>, Vec<(usize, usize)>) = match sink {
             "iov" => {
-                let mut iov: OwningIovec<'static> = OwningIovec::new();
-                s.msg.write(&mut iov);
+                let mut rec: RecSink<'static, OwningIovec<'static>> = RecSink::new(OwningIovec::new());
+                s.msg.write(&mut rec);
+                let calls = rec.calls_str();
+                let RecSink { inner: iov, handed, borrowed, .. } = rec;
                 match iov.flatten() {
-                    Ok(v) => v,
+                    Ok(v) => (v, calls, handed, borrowed),
                     Err(_) => {
                         bad(&mut so, "the iovec has pending backreferences after to_rough_tlv".into());
                         return so;
@@ -844,8 +980,10 @@ impl TlvExec {
                 }
             }
             "hcobs" => {
-                let mut enc: hcobs::Encoder<'static> = hcobs::Encoder::new();
-                s.msg.write(&mut enc);
+                let mut rec: RecSink<'static, hcobs::Encoder<'static>> = RecSink::new(hcobs::Encoder::new());
+                s.msg.write(&mut rec);
+                let calls = rec.calls_str();
+                let RecSink { inner: enc, handed, borrowed, .. } = rec;
                 let wire = match enc.finish().flatten() {
                     Ok(v) => v,
                     Err(_) => {
@@ -853,9 +991,19 @@ impl TlvExec {
                         return so;
                     }
                 };
+                wire_line = Some(format!("wire {}", to_hex(&wire)));
+                // sink agnostic, on the real code: the wire bytes are the one-call encoding of the layout
+                let mut one: hcobs::Encoder<'_> = hcobs::Encoder::new();
+                one.encode_copy(&reference);
+                if one.finish().flatten().ok().as_deref() != Some(&wire[..]) {
+                    bad(&mut so, "the HCOBS sink's output differs from the HCOBS encoding of the layout in one call".into());
+                }
+                if wire.windows(2).any(|w| w == [0xFE, 0xFD]) {
+                    bad(&mut so, "the HCOBS sink's output contains the stuff sequence".into());
+                }
                 let mut dec = hcobs::Decoder::new();
                 match dec.decode_copy(&wire).and_then(|_| dec.finish()) {
-                    Ok(iov) => iov.flatten().unwrap_or_else(|e| e),
+                    Ok(iov) => (iov.flatten().unwrap_or_else(|e| e), calls, handed, borrowed),
                     Err(_) => {
                         bad(&mut so, "the real HCOBS decoder rejects what the encoder sink produced".into());
                         return so;
@@ -865,6 +1013,25 @@ impl TlvExec {
             _ => return StepOut::bad(),
         };
         so.tags.push(format!("enc_{}", sink));
+        so.tags.push(format!("enc_borrows_{}", borrowed.len().min(3)));
+        // ---- at the sink interface (any ZeroCopySink): what `encode` hands over, call by call, IS the layout
+        if handed != reference {
+            bad(&mut so, format!("the bytes handed to the sink differ from the Roughtime layout: got {} want {}", to_hex(&handed), to_hex(&reference)));
+        }
+        if handed.len() != s.msg.tlv_len() {
+            bad(&mut so, format!("{} bytes were handed to the sink but rough_tlv_len() = {}", handed.len(), s.msg.tlv_len()));
+        }
+        // a borrowed value is handed over in place: the slice lies inside one of the buffers the harness lent
+        for (addr, len) in &borrowed {
+            let inside = *len == 0
+                || self.bufs.iter().any(|b| {
+                    let lo = b.as_ptr() as usize;
+                    lo <= *addr && addr + len <= lo + b.len()
+                });
+            if !inside {
+                bad(&mut so, format!("append_borrow was handed {} bytes that are not inside a caller-owned buffer", len));
+            }
+        }
         // ---- layout and length
         if out != reference {
             bad(&mut so, format!("emitted bytes differ from the Roughtime layout: got {} want {}", to_hex(&out), to_hex(&reference)));
@@ -893,6 +1060,8 @@ impl TlvExec {
             so.violations.extend(v);
             return so;
         }
+        so.obs.push(format!("calls {}", calls));
+        so.obs.extend(wire_line);
         so.obs.push(format!("bytes {}", to_hex(&out)));
         so.obs.extend(o);
         so.violations.extend(v.into_iter().map(|x| x.replacen("C12", "C11 view:", 1)));
